@@ -87,6 +87,17 @@ pub struct Case {
     pub forwarding: bool,
     /// alias loop pre-seeded in the cache (length, 0 = none)
     pub cache_loop: u8,
+    /// every reply not delayed otherwise arrives after this many ms: slow but
+    /// working servers, so that long resolutions run into the 60 s budget
+    #[serde(default)]
+    pub slow_ms: u32,
+    /// forwarding mode: the forwarder answers an aliased name with the first
+    /// link only, so the resolver has to follow the chain query by query
+    #[serde(default)]
+    pub fwd_one_link: bool,
+    /// every UDP reply is truncated (TC), so that every exchange is repeated over TCP
+    #[serde(default)]
+    pub tc_always: bool,
 }
 
 pub struct Faults;
@@ -237,7 +248,7 @@ impl Prop for Faults {
                 questions.push(WQ { name: apex.child(b"www"), qtype: T_A, qclass: 1 });
             }
         }
-        Case { universe, structural, plan, questions, protocol, forwarding: g.chance(1, 5), cache_loop: if g.chance(1, 8) { g.range(1, 5) as u8 } else { 0 } }
+        Case { universe, structural, plan, questions, protocol, forwarding: g.chance(1, 5), cache_loop: if g.chance(1, 8) { g.range(1, 5) as u8 } else { 0 }, slow_ms: if g.chance(1, 5) { g.pick(&[1_000u32, 2_500, 4_000, 4_900, 4_999]) } else { 0 }, fwd_one_link: g.bool(), tc_always: g.chance(1, 6) }
     }
 
     fn enumerate(&self, tier: Tier, emit: &mut dyn FnMut(Case)) {
@@ -284,6 +295,9 @@ impl Prop for Faults {
                     protocol: 0,
                     forwarding,
                     cache_loop: 0,
+                    slow_ms: 0,
+                    fwd_one_link: false,
+                    tc_always: false,
                 });
             }
         }
@@ -316,6 +330,9 @@ impl Prop for Faults {
         let reached2 = reached.clone();
         let u2 = u.clone();
         let forwarding = c.forwarding;
+        let slow_ms = c.slow_ms;
+        let fwd_one_link = c.fwd_one_link;
+        let tc_always = c.tc_always;
         let mock = Mock::new(Box::new(move |ctx: &Ctx| {
             let fault = plan.get(ctx.index).copied().unwrap_or(Fault::None);
             if fault != Fault::None {
@@ -330,8 +347,8 @@ impl Prop for Faults {
                     id: 0, qr: true, opcode: 0, aa: false, tc: false, rd: true, ra: true,
                     rcode: if t.name_error { 3 } else { 0 },
                     questions: vec![q.clone()],
-                    answers: t.chain.iter().chain(t.finals.iter()).map(row).collect(),
-                    authority: t.soa.into_iter().collect(),
+                    answers: if fwd_one_link && !t.chain.is_empty() { t.chain.iter().take(1).map(row).collect() } else { t.chain.iter().chain(t.finals.iter()).map(row).collect() },
+                    authority: if fwd_one_link && !t.chain.is_empty() { vec![] } else { t.soa.into_iter().collect() },
                     additional: vec![],
                 })
             } else {
@@ -341,7 +358,10 @@ impl Prop for Faults {
             m.id = req.id;
             m.rd = req.rd;
             let label = format!("{fault:?}");
-            let mut delay = 15u64;
+            if tc_always && !ctx.tcp {
+                m.tc = true;
+            }
+            let mut delay = if slow_ms > 0 { u64::from(slow_ms) } else { 15u64 };
             match fault {
                 Fault::None => {}
                 Fault::Drop => return Action::Silence,
@@ -477,7 +497,7 @@ pub fn def() -> PropertyDef {
     PropertyDef {
         id: "C08",
         level: "fault_enumeration",
-        rule: "fault-plans: a generated universe (as in C07) with 0..2 structural faults planted (lame servers, circular referrals, referrals to an ancestor, withheld glue, nameserver sets of three names that do not exist, alias loops of length 1..5 in zone data and in the pre-seeded cache, alias chains of 3..40 links) and a fault plan assigning to the first 0..12 exchanges one of: none, drop, delay (0, 100 ms, 4.999 s, 5 s, 5.001 s, 9 s, 20 s, 59 s, 61 s, 70 s), garbage octets, truncated prefix of the right reply, wrong ID, TC, rcode 1/2/4/5/9, altered question, transport failure, QR clear; recursive (all protocol modes) and forwarding mode; plus the exhaustive enumeration of all assignments of 16 faults to the first 2 (quick) / 3 (thorough) exchanges of a fixed three-level resolution, in both modes. Time is tokio's paused clock; every exchange costs at least 1 ms. Oracle: the resolution returns; virtual elapsed <= 60 s; every exchange is delivered or abandoned within 5 s of its start; no panic; every record of an Ok result occurs in a delivered reply, the hints or the pre-seeded cache. Non-trivial = at least one planned fault was reached or a structural fault is planted. Distinct by hash of the case.",
+        rule: "fault-plans: a generated universe (as in C07) with 0..2 structural faults planted (lame servers, circular referrals, referrals to an ancestor, withheld glue, nameserver sets of three names that do not exist, alias loops of length 1..5 in zone data and in the pre-seeded cache, alias chains of 3..40 links) and a fault plan assigning to the first 0..12 exchanges one of: none, drop, delay (0, 100 ms, 4.999 s, 5 s, 5.001 s, 9 s, 20 s, 59 s, 61 s, 70 s), garbage octets, truncated prefix of the right reply, wrong ID, TC, rcode 1/2/4/5/9, altered question, transport failure, QR clear; one case in five has slow servers throughout (every reply after 1 s, 2.5 s, 4 s, 4.9 s or 4.999 s) and one in six truncates every UDP reply, so that long walks and chains run into the 60 s budget (the resolver's overall timeout is reached in about 0.2% of the resolutions); the forwarder answers aliases completely or link by link; recursive (all protocol modes) and forwarding mode; plus the exhaustive enumeration of all assignments of 16 faults to the first 2 (quick) / 3 (thorough) exchanges of a fixed three-level resolution, in both modes. Time is tokio's paused clock; every exchange costs at least 1 ms. Oracle: the resolution returns; virtual elapsed <= 60 s; every exchange is delivered or abandoned within 5 s of its start; no panic; every record of an Ok result occurs in a delivered reply, the hints or the pre-seeded cache. Non-trivial = at least one planned fault was reached or a structural fault is planted. Distinct by hash of the case.",
         assumptions: vec!["a real-time hang shows as the engine's wall-clock budget (exit 2), not as a violation"],
         parts: vec![Box::new(Faults)],
         budget_s: |t| t.pick(900, 10_800),
